@@ -2,6 +2,8 @@ import Enc.Model.Json.Scan
 import Enc.Model.Json.Stream
 import Enc.Model.Json.Token
 import Enc.Spec.Json.Tokens
+import Enc.Model.Json.EncString
+import Enc.Spec.Json.StdEnc
 import Enc.Spec.Json.Grammar
 /-! line-protocol handlers, area `json` (syntax layer). -/
 namespace Enc.Driver.Json
@@ -73,6 +75,12 @@ def handle (op : String) (args : List String) : Option (String × String × Stri
       | some ts => String.intercalate ";" (ts.map fun t => s!"{t.delim.toNat}/{toHex t.value}/{t.depth}/{t.index}/{boolStr t.isKey}")
       | none => "invalid"
     pure ("-", s, "")
+  | "json.encstr", [html, h] => do
+    let s ← fromHex h
+    pure (toHex (Model.Json.encodeString s (html == "1")), toHex (Spec.Json.appendString s (html == "1")), "")
+  | "json.encint", [n] => do
+    let i ← n.toInt?
+    pure (toHex (Model.Json.appendInt i), toHex (Spec.Json.intString i), "")
   | _, _ => none
 
 end Enc.Driver.Json
